@@ -45,6 +45,16 @@ def gen_inputs(ctx):
     for m, p in pairs:
         out.append(("Seed", {"m": T(m), "p": T(p)},
                     ("seed", m.isascii(), p.isascii(), R.nfkd(m) != m, R.nfkd(p) != p, p == "", len(R.utf8(m)) > 128)))
+    # pairs that differ only in WHERE the boundary between mnemonic, the literal "mnemonic" and the passphrase lies
+    # (their concatenations coincide), each judged right after the other one was asked in the same process
+    Mn = "legal winner thank year wave sausage worth useful legal winner thank yellow"
+    twins = [((Mn, "mnemonic" + "TREZOR"), (Mn + "mnemonic", "TREZOR")), ((Mn, "mnemonicmnemonic"), (Mn + "mnemonic", "mnemonic")),
+             ((Mn + " x", "y"), (Mn + " ", "xy")), (("ab", "c"), ("a", "bc")), ((Mn, ""), (Mn[:-1], Mn[-1:])),
+             (("a", "mnemonicb"), ("amnemonic", "b")), ((Mn + "mnemonic", ""), (Mn, "mnemonic"))]
+    for a_, b_ in twins:
+        for first, second in ((a_, b_), (b_, a_)):
+            out.append(("Seed", {"m": T(second[0]), "p": T(second[1]), "warm": [{"m": T(first[0]), "p": T(first[1])}]},
+                        ("seed-after-boundary-twin", len(second[1]) == 0)))
     # constructors: one secret through all routes x both networks
     for s in range(6 if q else 120):
         n = rng.choice([16, 20, 24, 28, 32])
